@@ -163,3 +163,77 @@ def run_model_case(case):
     finally:
         signal.alarm(0)
     return out
+
+
+def load_generated(ebnf, name='Gen'):
+    """to_python_sourcecode -> compile() (valid-Python claim) -> exec -> parser class."""
+    import tatsu
+    src = tatsu.to_python_sourcecode(ebnf, name=name)
+    code = compile(src, f'<generated {name}>', 'exec')
+    ns = {'__name__': f'generated_{name}'}
+    exec(code, ns)
+    cls = ns.get(f'{name}Parser')
+    if cls is None:
+        cand = [v for k, v in ns.items() if k.endswith('Parser') and isinstance(v, type) and v.__module__ == ns['__name__']]
+        cls = cand[-1]
+    return cls, src
+
+
+def run_generated_case(case):
+    """Same contract as run_model_case, for the generated Python parser of the same grammar text."""
+    sys.setrecursionlimit(case.get('reclimit', 3000))
+    signal.signal(signal.SIGALRM, _alarm)
+    settings = dict(case.get('settings') or {})
+    start = case.get('start', 's')
+    ebnf = with_wrapper(case['ebnf'], start) if case.get('wrap', True) else case['ebnf']
+    out = {'res': []}
+    clear_caches()
+    signal.alarm(case.get('timeout', 20))
+    try:
+        try:
+            cls, src = load_generated(ebnf)
+            out['compile'] = {'k': 'ok'}
+        except _Timeout:
+            out['compile'] = {'k': 'exc', 'cls': 'Timeout'}
+            return out
+        except SyntaxError as e:
+            out['compile'] = {'k': 'exc', 'cls': 'SyntaxError', 'msg': f'generated source is not valid Python: {e}'}
+            return out
+        except Exception as e:  # noqa: BLE001
+            out['compile'] = {'k': 'exc', 'cls': type(e).__name__, 'msg': str(e)[:300]}
+            return out
+        finally:
+            signal.alarm(0)
+        for text in case['texts']:
+            r = {}
+            signal.alarm(case.get('timeout', 20))
+            try:
+                kw = dict(settings)
+                sem = make_semantics(case.get('sem'), case.get('actrule', '*'))
+                if sem is not None:
+                    kw['semantics'] = sem
+                r['plain'] = outcome(lambda: cls().parse(text, start=start, **kw))
+                if case.get('wrap', True):
+                    sem2 = make_semantics(case.get('sem'), case.get('actrule', '*'))
+                    if sem2 is not None:
+                        kw['semantics'] = sem2
+                    w = outcome(lambda: cls().parse(text, start=wrap_name(start), **kw))
+                    if w['k'] == 'ok' and isinstance(w['v'], dict) and 'r' in w['v']:
+                        rest = w['v']['r']
+                        w = {'k': 'ok', 'v': w['v'].get('v'),
+                             'pos': (len(text) - len(rest)) if isinstance(rest, str) else f'rest={rest!r}'}
+                    r['wrapped'] = w
+            except _Timeout:
+                r.setdefault('plain', {'k': 'exc', 'cls': 'Timeout'})
+            finally:
+                signal.alarm(0)
+            out['res'].append(r)
+    finally:
+        signal.alarm(0)
+    return out
+
+
+def run_both_case(case):
+    m = run_model_case(case)
+    g = run_generated_case(case)
+    return {'compile': m['compile'], 'res': m['res'], 'gen': g}
